@@ -243,6 +243,9 @@ func lunarYmd(l *calendar.Lunar) string {
 // It also rotates the route by which the object is obtained (conversion, direct construction from the lunar
 // fields, time.Time with a sub-second part): C01 states the objects are observably identical, so the attribute
 // rules must hold on each. A route that fails or lands elsewhere falls back to the conversion (C01/C07 judge it).
+// ask-first is applied to the first two objects handed out per day (the checks ask for midnight / noon first)
+var lunarPAskDay, lunarPAskCount = -1, 0
+
 func lunarP(s *calendar.Solar, j int) *calendar.Lunar {
 	l := s.GetLunar()
 	switch j % 4 {
@@ -273,7 +276,11 @@ func lunarP(s *calendar.Solar, j int) *calendar.Lunar {
 			}
 		}
 	}
-	if (j/4)%3 == 1 {
+	if j != lunarPAskDay {
+		lunarPAskDay, lunarPAskCount = j, 0
+	}
+	if (j/4)%3 == 1 && lunarPAskCount < 2 {
+		lunarPAskCount++
 		// ask first: every zero-argument accessor of the object is called once (in an order that rotates
 		// with the day) before the check reads what it is interested in; a read-only accessor leaves the object as it was
 		askAllLunar(l, j/12)
